@@ -1,5 +1,6 @@
 import QuantemModel.Model.SerializeSpec
 import QuantemModel.Lemmas.SerializeCanon
+import QuantemModel.Lemmas.SeqKeys
 /-!
 C01 — serializer round-trip fidelity, for the executable model of serialize.py
 (Model/Serialize.lean).  Only property theorems and non-vacuity examples live here.
@@ -286,6 +287,106 @@ theorem roundtrip_fixed (cls : String) (attrs : List (String × Val)) (h : wfA (
   have hc : canon (.obj cls attrs) = .obj cls (reorder (canonKvs attrs)) := by simp [canon]
   rw [hc] at hid hw ⊢
   rw [roundtrip cls _ hw, hid]
+
+
+/-! ### element keys of sequences (`Model/SeqKeys.lean`)
+
+`Model/Serialize.lean` keeps sequence elements as positional children; the real code stores
+element `i` under `str(i)` and rebuilds the sequence from `max(int(k) …) + 1` and one lookup
+per index (a missing index raises `KeyError`).  The theorems below show that this key layer is the identity on every list —
+whatever order the store enumerates attributes, arrays and sub-groups in, and with any
+non-digit metadata keys next to the elements — which is what justifies the positional
+children of the model. -/
+
+section SeqKeys
+open QuantemModel.SeqKeys
+
+/-- Python's `int(str(n)) == n` and `str(n).isdigit()` for the modelled decimal rendering;
+distinct indices get distinct keys -/
+theorem seq_key_parse (n : Nat) : undec (dec n) = some n ∧ ∀ m, dec n = dec m → n = m :=
+  ⟨undec_dec n, fun _ h => dec_injective h⟩
+
+/-- **the reconstruction loop rebuilds the list** from any dictionary-like child collection
+that (1) holds no key twice, (2) holds element `i` under `str(i)` and (3) holds no digit key
+beyond the last index — all three conditions are independent of enumeration order -/
+theorem seqDecode_of_dict {α : Type} (items : List α) (kids : List (Key × α))
+    (hnd : (kids.map (·.1)).Nodup)
+    (hmem : ∀ i (h : i < items.length), (dec i, items[i]) ∈ kids)
+    (hdig : ∀ k ∈ kids.map (·.1), ∀ i, undec k = some i → i < items.length) :
+    seqDecode kids = some items := by
+  have hlen : seqLen (kids.map (·.1)) = items.length := by
+    unfold seqLen
+    apply Nat.le_antisymm
+    · apply foldl_max_le _ _ _ (Nat.zero_le _)
+      intro i hi
+      obtain ⟨k, hk, hki⟩ := List.mem_filterMap.mp hi
+      exact hdig k hk i hki
+    · cases hn : items.length with
+      | zero => exact Nat.zero_le _
+      | succ n =>
+        apply mem_le_foldl_max
+        apply List.mem_filterMap.mpr
+        refine ⟨dec n, ?_, undec_dec n⟩
+        exact List.mem_map.mpr ⟨(dec n, items[n]), hmem n (by omega), rfl⟩
+  unfold seqDecode
+  rw [hlen]
+  apply collect_range_eq
+  intro i h
+  exact lookupKey_of_mem _ _ _ hnd (hmem i h)
+
+/-- **sequence element keys round-trip for every list, in every storage order**: the children
+written by `for i, v in enumerate(value): key = str(i)`, together with any metadata entries
+under non-digit keys (`_container_type`, `_sequence_encoding`, `<i>.is_path` …), enumerated in
+ANY order, are rebuilt into exactly the original list — any length (in particular across
+9→10, 99→100, where the string order of the keys differs from the numeric one) -/
+theorem seqDecode_keyed_perm {α : Type} (items : List α) (metas kids : List (Key × α))
+    (hp : kids.Perm (keyed items ++ metas))
+    (hmeta : ∀ m ∈ metas, undec m.1 = none) (hmnd : (metas.map (·.1)).Nodup) :
+    seqDecode kids = some items := by
+  apply seqDecode_of_dict
+  · have : ((keyed items ++ metas).map (·.1)).Nodup := by
+      rw [List.map_append, List.nodup_append]
+      refine ⟨keyedFrom_nodup items 0, hmnd, ?_⟩
+      intro a ha b hb hab
+      subst hab
+      obtain ⟨m, hm, rfl⟩ := List.mem_map.mp hb
+      rw [keyed, keyedFrom_keys] at ha
+      obtain ⟨j, _, hj⟩ := List.mem_map.mp ha
+      have := hmeta m hm
+      rw [← hj, undec_dec] at this
+      cases this
+    exact (hp.map _).nodup_iff.mpr this
+  · intro i h
+    apply hp.mem_iff.mpr
+    apply List.mem_append_left
+    have := keyedFrom_mem items 0 i h
+    simpa [keyed] using this
+  · intro k hk i hki
+    have hk' : k ∈ (keyed items ++ metas).map (·.1) := (hp.map _).mem_iff.mp hk
+    rw [List.map_append, List.mem_append] at hk'
+    rcases hk' with hk' | hk'
+    · have := keyedFrom_digits items 0 k hk' i hki
+      omega
+    · obtain ⟨m, hm, rfl⟩ := List.mem_map.mp hk'
+      rw [hmeta m hm] at hki
+      cases hki
+
+theorem seqDecode_keyed {α : Type} (items : List α) : seqDecode (keyed items) = some items :=
+  seqDecode_keyed_perm items [] (keyed items) (by simp) (by simp) (by simp)
+
+
+/-- an element key missing below the reconstructed length makes the load fail (`KeyError`)
+instead of silently shortening or shifting the sequence -/
+theorem seqDecode_missing_raises {α : Type} (kids : List (Key × α)) (i : Nat)
+    (hi : i < seqLen (kids.map (·.1))) (hm : lookupKey (dec i) kids = none) :
+    seqDecode kids = none :=
+  collect_none_of_missing _ _ i (List.mem_range.mpr hi) hm
+
+/-- twelve elements stored in string order ("0","1","10","11","2",…) come back in numeric order -/
+example : seqDecode ([0, 1, 10, 11, 2, 3, 4, 5, 6, 7, 8, 9].map fun i => (dec i, i * i)) =
+    some ((List.range 12).map fun i => i * i) := by decide +kernel
+
+end SeqKeys
 
 /-! ### non-vacuity: a depth-4 graph with every value kind is well-formed and round-trips -/
 
